@@ -1,8 +1,8 @@
 (* C01, semantic clause, part 2 of 3: arrays.  Select / Store / ArrayValue and the array branches
    of Equals, against core/Sem.v (arr_assign, OSelect, OStore, OArrayValue).
    Array values of the fragment are in the canonical form of SimplifierSemBase_proofs.arr_node_ok:
-   index sort not an array sort and not Real, element sort not Real, indices constants of Bool /
-   Int / BV / String sort strictly increasing in Ctors.const_key order, no assigned value
+   index sort not an array sort, indices constants of Bool / Int / Real / BV / String sort
+   (Real constants in lowest terms, as everywhere in okt) strictly increasing in Ctors.const_key order, no assigned value
    syntactically equal to the default.  walk_equals on two constant array values is the
    extensional comparison const_eqb (const_eqb_sound; over Bool / BV by counting the keys of
    the sort: keys_covered / keys_not_covered). *)
@@ -30,12 +30,14 @@ Proof.
   destruct (Z.ltb_spec x y), (Z.ltb_spec y x); try discriminate; try lia. intros H1 H2. f_equal; [lia | auto].
 Qed.
 Lemma key_const_inv a : key_const a = true ->
-  (exists b, a = TBoolC b) \/ (exists z, a = TIntC z) \/ (exists v w, a = TBVC v w) \/ (exists s, a = TStrC s).
+  (exists b, a = TBoolC b) \/ (exists z, a = TIntC z) \/ (exists v w, a = TBVC v w) \/ (exists s, a = TStrC s) \/
+  (exists n d, a = TRealC n d /\ (0 < d)%Z /\ Z.gcd n d = 1%Z).
 Proof.
-  destruct a as [o [|? ?]]; destruct o; cbn; try discriminate; intros _.
+  destruct a as [o [|? ?]]; destruct o; cbn; try discriminate; intros H.
+  - do 4 right. apply andb_true_iff in H. destruct H as [H1 H2]. apply Z.ltb_lt in H1. apply Z.eqb_eq in H2. do 2 eexists. split; [reflexivity | auto].
   - left; eexists; reflexivity.
   - right; left; eexists; reflexivity.
-  - right; right; right; eexists; reflexivity.
+  - right; right; right; left; eexists; reflexivity.
   - right; right; left; do 2 eexists; reflexivity.
 Qed.
 Lemma term_eqb_refl t : term_eqb t t = true.
@@ -43,8 +45,8 @@ Proof. now apply term_eqb_eq. Qed.
 Lemma const_key_inj a b : key_const a = true -> key_const b = true -> const_key a = const_key b -> a = b.
 Proof.
   intros Ha Hb.
-  destruct (key_const_inv a Ha) as [[x ->]|[[x ->]|[(x & w & ->)|[x ->]]]];
-    destruct (key_const_inv b Hb) as [[y ->]|[[y ->]|[(y & w' & ->)|[y ->]]]]; cbn; intros E; try discriminate E; inversion E; auto.
+  destruct (key_const_inv a Ha) as [[x ->]|[[x ->]|[(x & w & ->)|[[x ->]|(x & w & -> & _)]]]];
+    destruct (key_const_inv b Hb) as [[y ->]|[[y ->]|[(y & w' & ->)|[[y ->]|(y & w' & -> & _)]]]]; cbn; intros E; try discriminate E; inversion E; auto.
   destruct x, y; auto; discriminate.
 Qed.
 Lemma klt_irrefl a : klt a a = false.
@@ -196,8 +198,9 @@ Definition ksorted (it : ty) (l : list (term * term)) : Prop := Forall (fun p =>
 Lemma kv_inj a b : key_const a = true -> key_const b = true -> kv a = kv b -> a = b.
 Proof.
   intros Ha Hb. unfold kv.
-  destruct (key_const_inv a Ha) as [[x ->]|[[x ->]|[(x & w & ->)|[x ->]]]];
-    destruct (key_const_inv b Hb) as [[y ->]|[[y ->]|[(y & w' & ->)|[y ->]]]]; cbn; intros E; try discriminate E; inversion E; auto.
+  destruct (key_const_inv a Ha) as [[x ->]|[[x ->]|[(x & w & ->)|[[x ->]|(x & w & -> & D1 & G1)]]]];
+    destruct (key_const_inv b Hb) as [[y ->]|[[y ->]|[(y & w' & ->)|[[y ->]|(y & w' & -> & D2 & G2)]]]]; cbn; intros E; try discriminate E; inversion E; auto.
+  apply (Q2R'_eq x w y w' D1 D2) in H0. destruct (lowest_terms_inj x w y w' D1 D2 G1 G2 H0) as [-> ->]. reflexivity.
 Qed.
 Lemma eval_kv_inj a b : key_const a = true -> key_const b = true -> eval I a = eval I b -> a = b.
 Proof. intros Ha Hb E. apply kv_inj; auto. unfold kv. now rewrite E. Qed.
@@ -296,14 +299,15 @@ Proof.
   destruct (P p); cbn; auto. constructor; auto. intros Hin. apply Hn. apply in_map_iff in Hin. destruct Hin as (q & E & Hq).
   apply filter_In in Hq. apply in_map_iff. exists q. tauto.
 Qed.
-Definition basic_ty (t : ty) : bool := match t with TArr _ _ | TReal => false | _ => true end.
+Definition basic_ty (t : ty) : bool := match t with TArr _ _ => false | _ => true end.
 Lemma idx_ok_basic it : idx_ok it = true -> basic_ty it = true.
 Proof. destruct it; auto. Qed.
 Lemma const_key_const i t : okt i = true -> tc i = Some t -> is_constant i = true -> basic_ty t = true -> key_const i = true.
 Proof.
   intros O Tc C B.
   destruct (const_cases i t O Tc C) as [(b & -> & E)|[(z & -> & E)|[(n & d & -> & E & D)|[(v & w & -> & E)|[(s0 & -> & E)|(? & ? & E & _)]]]]];
-    subst t; try reflexivity; discriminate B.
+    subst t; try reflexivity; try discriminate B.
+  destruct (realc_lowest n d O) as [D' G]. cbn. now rewrite (proj2 (Z.ltb_lt 0 d) D'), G.
 Qed.
 
 Section ArrRules.
@@ -446,10 +450,10 @@ End ArrRules.
 Open Scope Z_scope.
 (* an index OF THE SORT that no constant of a finite list denotes, for the infinite index sorts *)
 Definition kmeas (t : term) : Z :=
-  match top t with OIntC z => Z.abs z | OStrC s => Z.of_nat (List.length s) | _ => 0 end.
+  match top t with OIntC z => Z.abs z | ORealC n _ => Z.abs n | OStrC s => Z.of_nat (List.length s) | _ => 0 end.
 Definition fresh_key (it : ty) (m : Z) : key :=
-  match it with TInt => KInt m | TStr => KStr (repeat 0 (Z.to_nat m)) | TUser n _ => KU n 0 | _ => KNone end.
-Definition infinite_idx (it : ty) : bool := match it with TInt | TStr | TUser _ _ => true | _ => false end.
+  match it with TInt => KInt m | TReal => KReal (IZR m) | TStr => KStr (repeat 0 (Z.to_nat m)) | TUser n _ => KU n 0 | _ => KNone end.
+Definition infinite_idx (it : ty) : bool := match it with TInt | TReal | TStr | TUser _ _ => true | _ => false end.
 Lemma kmeas_nonneg t : 0 <= kmeas t.
 Proof. unfold kmeas. destruct (top t); lia. Qed.
 Lemma fresh_sorted it m : infinite_idx it = true -> key_sortb (fresh_key it m) it = true.
@@ -457,12 +461,14 @@ Proof. destruct it; cbn; try discriminate; auto. intros _. apply String.eqb_refl
 Lemma fresh_ne I it k m : key_const k = true -> tc k = Some it -> infinite_idx it = true -> kmeas k < m ->
   kv I k <> fresh_key it m.
 Proof.
-  intros Hk Tk Hi Hm. destruct (key_const_inv k Hk) as [[x ->]|[[x ->]|[(x & w & ->)|[x ->]]]]; cbn in Tk.
+  intros Hk Tk Hi Hm. destruct (key_const_inv k Hk) as [[x ->]|[[x ->]|[(x & w & ->)|[[x ->]|(x & w & -> & D & G)]]]]; cbn in Tk.
   - inversion Tk; subst. discriminate Hi.
   - inversion Tk; subst. unfold kv. cbn. cbn in Hm. intros [= E]. lia.
   - destruct it; try discriminate Hi; unfold kv; cbn; discriminate.
   - inversion Tk; subst. unfold kv. cbn. cbn in Hm. intros [= E]. apply (f_equal (@List.length Z)) in E.
     rewrite repeat_length in E. lia.
+  - inversion Tk; subst. unfold kv. cbn. cbn in Hm. intros [= E].
+    replace (IZR m) with (Q2R' m 1) in E by (unfold Q2R'; field). apply (Q2R'_eq x w m 1 D ltac:(lia)) in E. nia.
 Qed.
 Lemma fresh_exists I it : forall ks : list term, Forall (fun k => key_const k = true /\ tc k = Some it) ks ->
   infinite_idx it = true -> exists x, key_sortb x it = true /\ forall k, In k ks -> kv I k <> x.
